@@ -349,6 +349,9 @@ func genG19(repo string, w *Out) error {
 			if strings.HasPrefix(t, "//") {
 				continue
 			}
+			if strings.Contains(t, "rv.Unredacted() != f.Value") {
+				continue // bind.go: only asks WHETHER the flag has a redact function
+			}
 			if strings.Contains(t, "Unredacted:") || strings.Contains(t, ".Unredacted =") || strings.Contains(t, ".Unredacted()") {
 				sites++
 			}
@@ -359,6 +362,22 @@ func genG19(repo string, w *Out) error {
 		return err
 	}
 	w.DefN("describers_unredacted_sites", uint64(sites))
+	// utils/cobrautil/bind.go: a value from the environment / config file that a redacted flag refuses is not echoed
+	bf0, err := Parse(repo, "utils/cobrautil/bind.go")
+	if err != nil {
+		return err
+	}
+	bv, err := bf0.Func("BindFromViper")
+	if err != nil {
+		return err
+	}
+	bsrc := bf0.Src(bv.Body)
+	if !strings.Contains(bsrc, `"invalid argument `) {
+		return fmt.Errorf("BindFromViper: the `invalid argument` report was not found")
+	}
+	w.DefBool("bind_error_redacts_value",
+		strings.Contains(bsrc, "if rv, ok := f.Value.(redactedValue); ok && rv.Unredacted() != f.Value { shown = `\"xxxxx\"` }") &&
+			strings.Contains(bsrc, `"invalid argument %s for %q flag: %v", shown, flagName, err`) && !strings.Contains(bsrc, `"invalid argument %q`))
 
 	// ---------------------------------------------------------------- bind/flag.go: the flag table
 	ff, err := Parse(repo, "bind/flag.go")
